@@ -24,7 +24,8 @@
                        part #0 is missing although enough parts are available;
      BugECNoDataHeader restoreFromECPartsByRule takes the parent header from DATA parts only: when all k data
                        parts are unavailable (possible iff k <= m) the full GET decodes with payload length 0
-                       and answers OK with a zero header and an empty payload.                          *)
+                       and answers OK with a zero header and an empty payload (for an empty object: not found,
+                       the nil parity payloads are counted as missing parts).                           *)
 EXTENDS Integers, Sequences, FiniteSets, TLC
 
 CONSTANTS BugV1NoLinkExtra, BugV2NoLinkEmpty, BugECFirstPart, BugECNoDataHeader
@@ -187,7 +188,8 @@ ReadWhole(L, r) == LET res == Resolve(r, L) IN IF res[1] THEN Ok(<< <<res[2], re
 ReadEC(L, k, m, miss, r) ==
   IF Cardinality(miss) > m THEN NotFound
   ELSE IF r.mode = "none" THEN                                    \* restoreFromECPartsByRule + Decode (C21)
-       IF BugECNoDataHeader /\ (1..k) \subseteq miss THEN Ok(<<>>) \* header (payload length) known from data parts only
+       IF BugECNoDataHeader /\ (1..k) \subseteq miss                \* header (payload length) known from data parts only:
+       THEN (IF L = 0 THEN NotFound ELSE Ok(<<>>))                  \* empty object: nil parity parts count as missing
        ELSE Ok(<< <<0, L>> >>)
   ELSE IF BugECFirstPart /\ 1 \in miss THEN NotFound              \* copyECObjectRangeByRule: header from part #0 only
   ELSE
